@@ -66,3 +66,540 @@ Theorem C06_src_guard_write_is_the_model : forall fuel (m : CMem.memory) bg og b
   src_addGuard fuel m (Ptr bg og) (Ptr b (Z.of_nat (length pre))) = FOk (tt, upd m b (pre ++ pattern ++ r)).
 Proof. exact src_addGuard_spec. Qed.
 Print Assumptions C06_src_guard_write_is_the_model.
+
+(* --------------------------------------------------------------------------------------------------------------
+   THE POINTER TABLES OF THE PLUGIN LAYER ARE THE SOURCE: gen/Gen_PlugC06.v is read from clang's AST of MemoryLeakWarningPlugin.cpp on every run (static initialisers of the 22 function-pointer variables, the assignments of the five switch functions, what each of the 33 handler functions calls, the pointer each of the 21 global entry points calls) and the hand-written tables of C06_Plug.v are proved equal to it
+   -------------------------------------------------------------------------------------------------------------- *)
+From CppUVerif Require Import C06_Plug gen.Gen_PlugC06 C06_PlugTie.
+Local Open Scope Z_scope.
+Theorem C06_initial_wiring_is_the_source :
+  init_ok false wire_initial = true /\ init_ok true wire_saved_initial = true.
+Proof. exact initial_wiring_is_the_source. Qed.
+Print Assumptions C06_initial_wiring_is_the_source.
+
+Theorem C06_no_other_pointer_variables :
+  forallb
+  (fun p : String.string * String.string =>
+  existsb (fun s : slot => String.eqb (fst p) (var_name false s) || String.eqb (fst p) (var_name true s))
+  all_slots) src_fptr_init = true /\ length src_fptr_init = 22%nat.
+Proof. exact no_other_pointer_variables. Qed.
+Print Assumptions C06_no_other_pointer_variables.
+
+Theorem C06_turnOff_is_the_source :
+  assigns_table src_turnOffNewDeleteOverloads wire_off = true.
+Proof. exact turnOff_is_the_source. Qed.
+Print Assumptions C06_turnOff_is_the_source.
+
+Theorem C06_turnOnDefault_is_the_source :
+  assigns_table src_turnOnDefaultNotThreadSafeNewDeleteOverloads wire_default = true.
+Proof. exact turnOnDefault_is_the_source. Qed.
+Print Assumptions C06_turnOnDefault_is_the_source.
+
+Theorem C06_turnOnThreadSafe_is_the_source :
+  assigns_table src_turnOnThreadSafeNewDeleteOverloads wire_safe = true.
+Proof. exact turnOnThreadSafe_is_the_source. Qed.
+Print Assumptions C06_turnOnThreadSafe_is_the_source.
+
+Theorem C06_save_restore_are_the_source :
+  save_shape = true /\ restore_shape = true.
+Proof. exact save_restore_are_the_source. Qed.
+Print Assumptions C06_save_restore_are_the_source.
+
+Theorem C06_save_runs_as_sw_step :
+  forall g1 g2 : hgroup,
+  let cur := fun s : slot => (g1, s) in
+  let sav := fun s : slot => (g2, s) in
+  let
+  '(c1, s1) := run_assigns src_saveAndDisableNewDeleteOverloads cur sav in
+  let
+  '(c2, _) := run_assigns src_turnOffNewDeleteOverloads c1 s1 in
+  let o := sw_step {| ov_cur := cur; ov_saved := sav; ov_count := 0 |} SwSave in
+  tables_eqb c2 (ov_cur o) = true /\ tables_eqb s1 (ov_saved o) = true.
+Proof. exact save_runs_as_sw_step. Qed.
+Print Assumptions C06_save_runs_as_sw_step.
+
+Theorem C06_restore_runs_as_sw_step :
+  forall g1 g2 : hgroup,
+  let cur := fun s : slot => (g1, s) in
+  let sav := fun s : slot => (g2, s) in
+  let
+  '(c1, s1) := run_assigns src_restoreNewDeleteOverloads cur sav in
+  let o := sw_step {| ov_cur := cur; ov_saved := sav; ov_count := 1 |} SwRestore in
+  tables_eqb c1 (ov_cur o) = true /\ tables_eqb s1 (ov_saved o) = true.
+Proof. exact restore_runs_as_sw_step. Qed.
+Print Assumptions C06_restore_runs_as_sw_step.
+
+Theorem C06_handlers_are_the_source :
+  forallb handler_ok
+  (flat_map (fun g : hgroup => map (fun s : slot => (g, s)) all_slots) (HNormal :: HLeak :: HSafe :: nil)) =
+  true /\ length src_handlers = 33%nat.
+Proof. exact handlers_are_the_source. Qed.
+Print Assumptions C06_handlers_are_the_source.
+
+Theorem C06_separate_records_iff_malloc_family :
+  forallb
+  (fun '(_, (_, calls)) =>
+  forallb
+  (fun '(_, g, sep) =>
+  if
+  String.eqb g
+  (String.String (Ascii.Ascii true true true false false true true false)
+  (String.String (Ascii.Ascii true false true false false true true false)
+  (String.String (Ascii.Ascii false false true false true true true false)
+  (String.String (Ascii.Ascii true true false false false false true false)
+  (String.String (Ascii.Ascii true false true false true true true false)
+  (String.String (Ascii.Ascii false true false false true true true false)
+  (String.String (Ascii.Ascii false true false false true true true false)
+  (String.String (Ascii.Ascii true false true false false true true false)
+  (String.String (Ascii.Ascii false true true true false true true false)
+  (String.String (Ascii.Ascii false false true false true true true false)
+  (String.String
+  (Ascii.Ascii true false true true false false true false)
+  (String.String
+  (Ascii.Ascii true false false false false true true false)
+  (String.String
+  (Ascii.Ascii false false true true false true true false)
+  (String.String
+  (Ascii.Ascii false false true true false true true false)
+  (String.String
+  (Ascii.Ascii true true true true false true true false)
+  (String.String
+  (Ascii.Ascii true true false false false true true
+  false)
+  (String.String
+  (Ascii.Ascii true false false false false false
+  true false)
+  (String.String
+  (Ascii.Ascii false false true true false true
+  true false)
+  (String.String
+  (Ascii.Ascii false false true true false
+  true true false)
+  (String.String
+  (Ascii.Ascii true true true true false
+  true true false)
+  (String.String
+  (Ascii.Ascii true true false false
+  false true true false)
+  (String.String
+  (Ascii.Ascii true false false false
+  false true true false)
+  (String.String
+  (Ascii.Ascii false false true
+  false true true true false)
+  (String.String
+  (Ascii.Ascii true true true
+  true false true true false)
+  (String.String
+  (Ascii.Ascii false true false
+  false true true true false)
+  String.EmptyString)))))))))))))))))))))))))
+  then
+  String.eqb sep
+  (String.String (Ascii.Ascii false false true false true true true false)
+  (String.String (Ascii.Ascii false true false false true true true false)
+  (String.String (Ascii.Ascii true false true false true true true false)
+  (String.String (Ascii.Ascii true false true false false true true false) String.EmptyString))))
+  else String.eqb sep String.EmptyString) calls) src_handlers = true.
+Proof. exact separate_records_iff_malloc_family. Qed.
+Print Assumptions C06_separate_records_iff_malloc_family.
+
+Theorem C06_entry_points_are_the_source :
+  forallb (fun f : aform => entry_ok (aform_sig f) (aform_slot f)) all_aforms = true /\
+  forallb (fun f : rform => entry_ok (rform_sig f) (rform_slot f)) all_rforms = true /\
+  entry_ok
+  (Some
+  (String.String (Ascii.Ascii true true false false false true true false)
+  (String.String (Ascii.Ascii false false false false true true true false)
+  (String.String (Ascii.Ascii false false false false true true true false)
+  (String.String (Ascii.Ascii true false true false true true true false)
+  (String.String (Ascii.Ascii false false true false true true true false)
+  (String.String (Ascii.Ascii true false true false false true true false)
+  (String.String (Ascii.Ascii true true false false true true true false)
+  (String.String (Ascii.Ascii false false true false true true true false)
+  (String.String (Ascii.Ascii true true true true true false true false)
+  (String.String (Ascii.Ascii false true false false true true true false)
+  (String.String (Ascii.Ascii true false true false false true true false)
+  (String.String
+  (Ascii.Ascii true false false false false true true false)
+  (String.String
+  (Ascii.Ascii false false true true false true true false)
+  (String.String
+  (Ascii.Ascii false false true true false true true false)
+  (String.String
+  (Ascii.Ascii true true true true false true true false)
+  (String.String
+  (Ascii.Ascii true true false false false true true false)
+  (String.String
+  (Ascii.Ascii true true true true true false true false)
+  (String.String
+  (Ascii.Ascii false false true true false true true
+  false)
+  (String.String
+  (Ascii.Ascii true true true true false true true
+  false)
+  (String.String
+  (Ascii.Ascii true true false false false true
+  true false)
+  (String.String
+  (Ascii.Ascii true false false false false
+  true true false)
+  (String.String
+  (Ascii.Ascii false false true false
+  true true true false)
+  (String.String
+  (Ascii.Ascii true false false true
+  false true true false)
+  (String.String
+  (Ascii.Ascii true true true true
+  false true true false)
+  (String.String
+  (Ascii.Ascii false true true
+  true false true true false)
+  (String.String
+  (Ascii.Ascii true true true
+  true true false true false)
+  (String.String
+  (Ascii.Ascii true true true
+  false true true true false)
+  (String.String
+  (Ascii.Ascii true false false
+  true false true true false)
+  (String.String
+  (Ascii.Ascii false false true
+  false true true true false)
+  (String.String
+  (Ascii.Ascii false false
+  false true false true true
+  false)
+  (String.String
+  (Ascii.Ascii true true true
+  true true false true false)
+  (String.String
+  (Ascii.Ascii false false true
+  true false true true false)
+  (String.String
+  (Ascii.Ascii true false true
+  false false true true false)
+  (String.String
+  (Ascii.Ascii true false false
+  false false true true false)
+  (String.String
+  (Ascii.Ascii true true false
+  true false true true false)
+  (String.String
+  (Ascii.Ascii true true true
+  true true false true false)
+  (String.String
+  (Ascii.Ascii false false true
+  false false true true false)
+  (String.String
+  (Ascii.Ascii true false true
+  false false true true false)
+  (String.String
+  (Ascii.Ascii false false true
+  false true true true false)
+  (String.String
+  (Ascii.Ascii true false true
+  false false true true false)
+  (String.String
+  (Ascii.Ascii true true false
+  false false true true false)
+  (String.String
+  (Ascii.Ascii false false true
+  false true true true false)
+  (String.String
+  (Ascii.Ascii true false false
+  true false true true false)
+  (String.String
+  (Ascii.Ascii true true true
+  true false true true false)
+  (String.String
+  (Ascii.Ascii false true true
+  true false true true false)
+  (String.String
+  (Ascii.Ascii false false
+  false true false true false
+  false)
+  (String.String
+  (Ascii.Ascii false true true
+  false true true true false)
+  (String.String
+  (Ascii.Ascii true true true
+  true false true true false)
+  (String.String
+  (Ascii.Ascii true false false
+  true false true true false)
+  (String.String
+  (Ascii.Ascii false false true
+  false false true true false)
+  (String.String
+  (Ascii.Ascii false false
+  false false false true false
+  false)
+  (String.String
+  (Ascii.Ascii false true false
+  true false true false false)
+  (String.String
+  (Ascii.Ascii false false true
+  true false true false false)
+  (String.String
+  (Ascii.Ascii false false
+  false false false true false
+  false)
+  (String.String
+  (Ascii.Ascii true true false
+  false true true true false)
+  (String.String
+  (Ascii.Ascii true false false
+  true false true true false)
+  (String.String
+  (Ascii.Ascii false true false
+  true true true true false)
+  (String.String
+  (Ascii.Ascii true false true
+  false false true true false)
+  (String.String
+  (Ascii.Ascii true true true
+  true true false true false)
+  (String.String
+  (Ascii.Ascii false false true
+  false true true true false)
+  (String.String
+  (Ascii.Ascii false false true
+  true false true false false)
+  (String.String
+  (Ascii.Ascii false false
+  false false false true false
+  false)
+  (String.String
+  (Ascii.Ascii true true false
+  false false true true false)
+  (String.String
+  (Ascii.Ascii true true true
+  true false true true false)
+  (String.String
+  (Ascii.Ascii false true true
+  true false true true false)
+  (String.String
+  (Ascii.Ascii true true false
+  false true true true false)
+  (String.String
+  (Ascii.Ascii false false true
+  false true true true false)
+  (String.String
+  (Ascii.Ascii false false
+  false false false true false
+  false)
+  (String.String
+  (Ascii.Ascii true true false
+  false false true true false)
+  (String.String
+  (Ascii.Ascii false false
+  false true false true true
+  false)
+  (String.String
+  (Ascii.Ascii true false false
+  false false true true false)
+  (String.String
+  (Ascii.Ascii false true false
+  false true true true false)
+  (String.String
+  (Ascii.Ascii false false
+  false false false true false
+  false)
+  (String.String
+  (Ascii.Ascii false true false
+  true false true false false)
+  (String.String
+  (Ascii.Ascii false false true
+  true false true false false)
+  (String.String
+  (Ascii.Ascii false false
+  false false false true false
+  false)
+  (String.String
+  (Ascii.Ascii true true false
+  false true true true false)
+  (String.String
+  (Ascii.Ascii true false false
+  true false true true false)
+  (String.String
+  (Ascii.Ascii false true false
+  true true true true false)
+  (String.String
+  (Ascii.Ascii true false true
+  false false true true false)
+  (String.String
+  (Ascii.Ascii true true true
+  true true false true false)
+  (String.String
+  (Ascii.Ascii false false true
+  false true true true false)
+  (String.String
+  (Ascii.Ascii true false false
+  true false true false false)
+  String.EmptyString))))))))))))))))))))))))))))))))))))))))))))))))))))))))))))))))))))))))))))))))))))
+  SRealloc = true /\ length src_entry_points = 21%nat.
+Proof. exact entry_points_are_the_source. Qed.
+Print Assumptions C06_entry_points_are_the_source.
+
+Theorem C06_plugin_wiring_is_the_source :
+  init_ok false wire_initial = true /\
+  init_ok true wire_saved_initial = true /\
+  assigns_table src_turnOffNewDeleteOverloads wire_off = true /\
+  assigns_table src_turnOnDefaultNotThreadSafeNewDeleteOverloads wire_default = true /\
+  assigns_table src_turnOnThreadSafeNewDeleteOverloads wire_safe = true /\
+  save_shape = true /\
+  restore_shape = true /\
+  forallb handler_ok
+  (flat_map (fun g : hgroup => map (fun s : slot => (g, s)) all_slots) (HNormal :: HLeak :: HSafe :: nil)) =
+  true /\
+  forallb (fun f : aform => entry_ok (aform_sig f) (aform_slot f)) all_aforms = true /\
+  forallb (fun f : rform => entry_ok (rform_sig f) (rform_slot f)) all_rforms = true.
+Proof. exact plugin_wiring_is_the_source. Qed.
+Print Assumptions C06_plugin_wiring_is_the_source.
+
+Theorem C06_a_wiring_slip_is_rejected :
+  assigns_table
+  (map
+  (fun p : String.string * String.string =>
+  if
+  String.eqb (fst p)
+  (String.String (Ascii.Ascii true true true true false true true false)
+  (String.String (Ascii.Ascii false false false false true true true false)
+  (String.String (Ascii.Ascii true false true false false true true false)
+  (String.String (Ascii.Ascii false true false false true true true false)
+  (String.String (Ascii.Ascii true false false false false true true false)
+  (String.String (Ascii.Ascii false false true false true true true false)
+  (String.String (Ascii.Ascii true true true true false true true false)
+  (String.String (Ascii.Ascii false true false false true true true false)
+  (String.String (Ascii.Ascii true true true true true false true false)
+  (String.String (Ascii.Ascii false true true true false true true false)
+  (String.String
+  (Ascii.Ascii true false true false false true true false)
+  (String.String
+  (Ascii.Ascii true true true false true true true false)
+  (String.String
+  (Ascii.Ascii true true true true true false true false)
+  (String.String
+  (Ascii.Ascii true false false false false true true false)
+  (String.String
+  (Ascii.Ascii false true false false true true true false)
+  (String.String
+  (Ascii.Ascii false true false false true true true
+  false)
+  (String.String
+  (Ascii.Ascii true false false false false true
+  true false)
+  (String.String
+  (Ascii.Ascii true false false true true true
+  true false)
+  (String.String
+  (Ascii.Ascii true true true true true false
+  true false)
+  (String.String
+  (Ascii.Ascii false true true true false
+  true true false)
+  (String.String
+  (Ascii.Ascii true true true true false
+  true true false)
+  (String.String
+  (Ascii.Ascii false false true false
+  true true true false)
+  (String.String
+  (Ascii.Ascii false false false
+  true false true true false)
+  (String.String
+  (Ascii.Ascii false true false
+  false true true true false)
+  (String.String
+  (Ascii.Ascii true true true
+  true false true true false)
+  (String.String
+  (Ascii.Ascii true true true
+  false true true true false)
+  (String.String
+  (Ascii.Ascii true true true
+  true true false true false)
+  (String.String
+  (Ascii.Ascii false true true
+  false false true true false)
+  (String.String
+  (Ascii.Ascii false false
+  false false true true true
+  false)
+  (String.String
+  (Ascii.Ascii false false true
+  false true true true false)
+  (String.String
+  (Ascii.Ascii false true false
+  false true true true false)
+  String.EmptyString)))))))))))))))))))))))))))))))
+  then
+  (fst p,
+  String.String (Ascii.Ascii true false true true false true true false)
+  (String.String (Ascii.Ascii true false true false false true true false)
+  (String.String (Ascii.Ascii true false true true false true true false)
+  (String.String (Ascii.Ascii true true true true true false true false)
+  (String.String (Ascii.Ascii false false true true false true true false)
+  (String.String (Ascii.Ascii true false true false false true true false)
+  (String.String (Ascii.Ascii true false false false false true true false)
+  (String.String (Ascii.Ascii true true false true false true true false)
+  (String.String (Ascii.Ascii true true true true true false true false)
+  (String.String (Ascii.Ascii true true true true false true true false)
+  (String.String (Ascii.Ascii false false false false true true true false)
+  (String.String
+  (Ascii.Ascii true false true false false true true false)
+  (String.String
+  (Ascii.Ascii false true false false true true true false)
+  (String.String
+  (Ascii.Ascii true false false false false true true false)
+  (String.String
+  (Ascii.Ascii false false true false true true true false)
+  (String.String
+  (Ascii.Ascii true true true true false true true false)
+  (String.String
+  (Ascii.Ascii false true false false true true true
+  false)
+  (String.String
+  (Ascii.Ascii true true true true true false true
+  false)
+  (String.String
+  (Ascii.Ascii false true true true false true
+  true false)
+  (String.String
+  (Ascii.Ascii true false true false false
+  true true false)
+  (String.String
+  (Ascii.Ascii true true true false true
+  true true false)
+  (String.String
+  (Ascii.Ascii true true true true true
+  false true false)
+  (String.String
+  (Ascii.Ascii false true true true
+  false true true false)
+  (String.String
+  (Ascii.Ascii true true true
+  true false true true false)
+  (String.String
+  (Ascii.Ascii false false true
+  false true true true false)
+  (String.String
+  (Ascii.Ascii false false
+  false true false true true
+  false)
+  (String.String
+  (Ascii.Ascii false true false
+  false true true true false)
+  (String.String
+  (Ascii.Ascii true true true
+  true false true true false)
+  (String.String
+  (Ascii.Ascii true true true
+  false true true true false)
+  String.EmptyString)))))))))))))))))))))))))))))
+  else p) src_turnOnDefaultNotThreadSafeNewDeleteOverloads) wire_default = false.
+Proof. exact a_wiring_slip_is_rejected. Qed.
+Print Assumptions C06_a_wiring_slip_is_rejected.
